@@ -4,6 +4,7 @@
 package kobj
 
 import (
+	"k8s.io/apimachinery/pkg/labels"
 	"k8s.io/apimachinery/pkg/types"
 	"time"
 	"sync/atomic"
@@ -457,12 +458,23 @@ func (f *Filt) Go() filter.Filter {
 	case FLabels:
 		// the caller's map is the caller's: it is changed after the call
 		m := f.Map.Go()
-		flt := filter.Labels(m)
+		var flt filter.Filter
+		if nsnameRoute.Add(1)%2 == 0 {
+			flt = filter.Labels(m)
+		} else {
+			// the same filter through the exported Selector constructor
+			flt = filter.Selector(labels.SelectorFromSet(m))
+		}
 		scribbleMap(m)
 		return flt
 	case FLabelSelector:
 		ls := f.LSel.Go()
-		flt := filter.LabelSelector(ls)
+		var flt filter.Filter
+		if sel, err := metav1.LabelSelectorAsSelector(ls); err == nil && nsnameRoute.Add(1)%2 == 1 {
+			flt = filter.Selector(sel)
+		} else {
+			flt = filter.LabelSelector(ls)
+		}
 		if ls != nil {
 			scribbleMap(ls.MatchLabels)
 			for i := range ls.MatchExpressions {
